@@ -22,7 +22,16 @@ from engine.report import Ctx, finish  # noqa: E402
 
 def run_rules(mod, prop, tier, seed, repo=None):
     ctx = Ctx(prop, tier, seed, repo=repo)
-    mod.run(ctx)
+    funcs = getattr(mod, "RULE_FUNCS", None)
+    if funcs is None:
+        mod.run(ctx)
+    else:
+        # rules are decided independently: an undecidable rule must not hide a violation found by another
+        for fn in funcs:
+            try:
+                fn(ctx)
+            except AnalysisError as e:
+                ctx.undecided.append((fn.__name__, str(e)))
     if tier == "thorough" and hasattr(mod, "thorough"):
         mod.thorough(ctx)
     return ctx
@@ -54,6 +63,8 @@ def witnesses(mod, prop, seed, base_ctx):
         try:
             r2 = Repo(R.root, overrides={module: new})
             c2 = run_rules(mod, prop, "quick", seed, repo=r2)
+            if c2.undecided and not any(i.verdict == "violated" and i.key not in base_bad for i in c2.insts):
+                raise AnalysisError("; ".join(m for _, m in c2.undecided))
             fired = sorted({i.rule for i in c2.insts if i.verdict == "violated" and i.key not in base_bad})
             rec["fired"] = fired
             rec["status"] = "live" if any(f"{prop}.{r}" in fired for r in expect) else "NOT-LIVE"
